@@ -2,6 +2,8 @@ import BddVerif.Props.C03
 import BddVerif.Lemmas.AlgoEqNestedDriver
 import BddVerif.Lemmas.AlgoEq2RelPanic
 import BddVerif.Lemmas.AlgoEq2RelQuant
+import BddVerif.Lemmas.SupportCongr
+import BddVerif.Lemmas.SupportCongrDrive
 #print axioms B.Props.C03.var_exists_canon
 #print axioms B.Props.C03.var_for_all_canon
 #print axioms B.Props.C03.var_exists_spec
@@ -42,3 +44,9 @@ import BddVerif.Lemmas.AlgoEq2RelQuant
 #print axioms B.AlgoEq2Rel.Bdd_for_all_eq_model
 #print axioms B.AlgoEq2Rel.Bdd_binary_op_with_exists_eq_model
 #print axioms B.AlgoEq2Rel.Bdd_var_exists_panics
+#print axioms B.SupportCongr.evalArr_congr_supportSet
+#print axioms B.SupportCongr.compress_evalArr_eq
+#print axioms B.SupportCongr.compress_evalArr_conn
+#print axioms B.SupportCongr.compress_evalArr_proj
+#print axioms B.SupportCongr.sameOn_iff
+#print axioms B.SupportCongr.c03_valOn_sound
